@@ -479,6 +479,80 @@ Proof.
   rewrite P5. cbn [run_lines option_map snd]. rewrite fold_co, E4. cbn. destruct h; reflexivity.
 Qed.
 
+(* the same proof with anything after the header lines: the lines the writer emits are well
+   formed, and running them from the initial state over ANY continuation arrives at the header *)
+Theorem header_lines_spec h ls : wf_header h -> write_header_lines h = Some ls ->
+  Forall line_ok ls /\
+  forall rest, exists c, run_lines (map (fun l => (l, true)) ls ++ rest) init_pstate = run_lines rest (c, h).
+Proof.
+  intros (WH & WS & NS & WR & NR & WP & NP & WC) H.
+  unfold write_header_lines in H.
+  destruct (match h_hd h with None => Some [] | Some m => option_map (fun l => [l]) (write_hd m) end) as [la|] eqn:EA; [|discriminate].
+  destruct (write_all write_sq (h_sq h)) as [lb|] eqn:EB; [|discriminate].
+  destruct (write_all (write_idmap 82 71) (h_rg h)) as [lc|] eqn:EC; [|discriminate].
+  destruct (write_all (write_idmap 80 71) (h_pg h)) as [ld|] eqn:ED; [|discriminate].
+  apply Some_inj in H. subst ls.
+  (* the @HD phase *)
+  assert (PA : Forall line_ok la /\ forall rest, exists c1,
+             run_lines (map (fun l => (l, true)) la ++ rest) init_pstate
+             = run_lines rest (c1, mkHeader (h_hd h) [] [] [] [])).
+  { destruct (h_hd h) as [m|].
+    - destruct (write_hd m) as [l|] eqn:E; [|discriminate]. cbn in EA. apply Some_inj in EA. subst la.
+      destruct (pp_hd false m l WH E) as (LO & c1 & P). split; [now constructor|].
+      intro rest. exists c1. cbn [map app]. rewrite run_lines_step by exact LO.
+      unfold init_pstate. now rewrite P.
+    - apply Some_inj in EA. subst la. split; [constructor|]. intro rest. exists false. reflexivity. }
+  destruct PA as (LA & PA).
+  set (h1 := mkHeader (h_hd h) [] [] [] []).
+  assert (CS : chain_ok ok_sq upd_sq (h_sq h) h1).
+  { apply (chain_keys sq_name wf_sq h_sq upd_sq); auto.
+    intros h0 m. unfold upd_sq. cbn. now rewrite map_app. }
+  set (h2 := fold_left upd_sq (h_sq h) h1).
+  assert (E2 : h2 = mkHeader (h_hd h) (h_sq h) [] [] []) by (unfold h2; rewrite fold_sq; reflexivity).
+  assert (CR : chain_ok ok_rg upd_rg (h_rg h) h2).
+  { apply (chain_keys im_id wf_id h_rg upd_rg); auto.
+    - intros h0 m. unfold upd_rg. cbn. now rewrite map_app.
+    - rewrite E2. exact NR. }
+  set (h3 := fold_left upd_rg (h_rg h) h2).
+  assert (E3 : h3 = mkHeader (h_hd h) (h_sq h) (h_rg h) [] []) by (unfold h3; rewrite fold_rg, E2; reflexivity).
+  assert (CP : chain_ok ok_pg upd_pg (h_pg h) h3).
+  { apply (chain_keys im_id wf_id h_pg upd_pg); auto.
+    - intros h0 m. unfold upd_pg. cbn. now rewrite map_app.
+    - rewrite E3. exact NP. }
+  set (h4 := fold_left upd_pg (h_pg h) h3).
+  assert (E4 : h4 = mkHeader (h_hd h) (h_sq h) (h_rg h) (h_pg h) []) by (unfold h4; rewrite fold_pg, E3; reflexivity).
+  pose proof (phase write_sq ok_sq upd_sq (fun c h m l => pp_sq c h m l) (h_sq h) lb EB) as PB.
+  pose proof (phase (write_idmap 82 71) ok_rg upd_rg (fun c h m l => pp_rg c h m l) (h_rg h) lc EC) as PC.
+  pose proof (phase (write_idmap 80 71) ok_pg upd_pg (fun c h m l => pp_pg c h m l) (h_pg h) ld ED) as PD.
+  assert (LB : Forall line_ok lb) by (apply (PB false h1 [] CS)).
+  assert (LC : Forall line_ok lc) by (apply (PC false h2 [] CR)).
+  assert (LD : Forall line_ok ld) by (apply (PD false h3 [] CP)).
+  assert (LE : Forall line_ok (map write_co (h_co h))).
+  { apply Forall_forall. intros l Hl. apply in_map_iff in Hl as (x & <- & Hx).
+    apply co_line_ok. rewrite Forall_forall in WC. now apply WC. }
+  split; [repeat (apply Forall_app; split); assumption|]. intro rest.
+  rewrite !map_app, <- !app_assoc.
+  destruct (PA (map (fun l => (l, true)) lb ++ map (fun l => (l, true)) lc ++ map (fun l => (l, true)) ld
+                ++ map (fun l => (l, true)) (map write_co (h_co h)) ++ rest)) as (c1 & ->).
+  fold h1.
+  destruct (PB c1 h1 (map (fun l => (l, true)) lc ++ map (fun l => (l, true)) ld
+                ++ map (fun l => (l, true)) (map write_co (h_co h)) ++ rest) CS) as (_ & c2 & ->).
+  fold h2.
+  destruct (PC c2 h2 (map (fun l => (l, true)) ld ++ map (fun l => (l, true)) (map write_co (h_co h)) ++ rest) CR) as (_ & c3 & ->).
+  fold h3.
+  destruct (PD c3 h3 (map (fun l => (l, true)) (map write_co (h_co h)) ++ rest) CP) as (_ & c4 & ->).
+  fold h4.
+  destruct (phase_co (h_co h) WC c4 h4 rest) as (c5 & P5).
+  rewrite P5. exists c5. rewrite fold_co, E4. cbn. destruct h; reflexivity.
+Qed.
+
+Lemma split_lf_lines_app ls rest : Forall line_ok ls ->
+  split_lf (concat (map (fun l => l ++ [10]) ls) ++ rest) = map (fun l => (l, true)) ls ++ split_lf rest.
+Proof.
+  induction 1 as [|l ls (_ & H10 & _) _ IH]; [reflexivity|].
+  cbn [map concat]. rewrite <- !app_assoc. cbn [app]. rewrite split_lf_app by exact H10. now rewrite IH.
+Qed.
+
 (* fixed point: immediate from the round trip, parsing gives back the same header *)
 Theorem header_fixed_point h t h' : wf_header h -> write_header h = Some t ->
   read_header t = Some h' -> write_header h' = Some t.
